@@ -16,6 +16,28 @@ impl Storage for Shared {
     }
 }
 
+/// Counts transactions begun (the C16 "without reading any stored state" observation).
+pub struct Counting {
+    pub inner: Arc<dyn Storage>,
+    pub txns: std::sync::atomic::AtomicUsize,
+}
+
+impl Counting {
+    pub fn new(inner: Arc<dyn Storage>) -> Arc<Counting> {
+        Arc::new(Counting { inner, txns: std::sync::atomic::AtomicUsize::new(0) })
+    }
+    pub fn count(&self) -> usize {
+        self.txns.load(std::sync::atomic::Ordering::SeqCst)
+    }
+}
+
+impl Storage for Counting {
+    fn txn(&self, client_id: Uuid) -> anyhow::Result<Box<dyn StorageTxn + '_>> {
+        self.txns.fetch_add(1, std::sync::atomic::Ordering::SeqCst);
+        self.inner.txn(client_id)
+    }
+}
+
 /// UUID <-> natural-number renaming.  nil <-> 0.  Ids bound by a plan keep the plan's number;
 /// everything else is numbered by first appearance starting at `next`.
 /// Renaming is injective, so a repeated UUID can never look fresh.
@@ -110,6 +132,16 @@ impl Payloads {
         v.extend_from_slice(&[0x00, 0xff, 0xfe, 0x80]);
         self.register(tok, v.clone());
         v
+    }
+    /// token for these bytes: the token of an earlier identical upload, else a fresh one
+    /// (two uploads of identical bytes are indistinguishable, so they share a token)
+    pub fn intern(&mut self, bytes: Vec<u8>) -> i64 {
+        if let Some(&t) = self.by_bytes.get(&bytes) {
+            return t;
+        }
+        let t = self.fresh_tok();
+        self.register(t, bytes);
+        t
     }
     pub fn register(&mut self, tok: i64, bytes: Vec<u8>) {
         self.by_bytes.insert(bytes.clone(), tok);
